@@ -281,7 +281,7 @@ PROPS["C13"] = dict(
                 "outside the output view unchanged, inputs unchanged; or a clean rejection (C++ exception or library assertion). A wrong result, a write outside the output, a sanitizer report or "
                 "a crash is a violation. Combinations the README lists as supported but that are rejected are counted, not failed."),
     technique="differential testing against a naive reference on generated operand layouts, each case in a forked child with accepted/rejected/wrong classification (rapidcheck)",
-    rule=("case = operation {gemm in-place / lazy (=, +=, array construction), gemv in-place / lazy, dot (+dot, conversion, result argument), axpy (in-place, +=), scal, copy (in-place, lazy), swap, "
+    rule=("case = operation {gemm in-place / lazy (=, +=, array construction), gemv in-place / lazy, dot (+dot, conversion, result argument), axpy (in-place, +=, -=), scal, copy (in-place, lazy), swap, "
           "nrm2, asum, iamax, herk (complex<double>), syrk, trsm (side x filling)} + sizes 0..5 + layouts + alpha, beta in {0, 1, -1, 2, i, 3-2i}; one harness per element type {double, "
           "complex<double>, float, complex<float>}, workers split evenly; non-trivial = accepted, a matrix operand padded or wrapped or a vector strided/conjugated, sizes >= 2 where relevant; "
           "distinct = hash of decoded case text"),
